@@ -132,8 +132,12 @@ def _pred_match(pred, case):
     return True
 
 
+KNOWN_PREDICATES = {}      # name -> function(case) -> bool, registered by the property modules (computed predicates of open findings)
+
+
 def match_known(known, prop, viol, case):
-    """An *open* entry matches by property, bucket regex AND predicate over the case."""
+    """An *open* entry matches by property, bucket regex AND predicate over the case (key equality and / or a named computed predicate:
+    a violation of the same property on a case the predicate does not cover is still reported)."""
     for e in known:
         if e.get("status") != "open" or e.get("property") != prop:
             continue
@@ -141,6 +145,11 @@ def match_known(known, prop, viol, case):
             continue
         if not _pred_match(e.get("predicate"), case):
             continue
+        fn = e.get("predicate_fn")
+        if fn is not None:
+            f = KNOWN_PREDICATES.get(fn)
+            if f is None or not f(case):
+                continue
         return e
     return None
 
